@@ -606,8 +606,10 @@ func (c *fctx) constEval(sc *scope, e ast.Expr) *cval {
 		}
 		return r
 	case *ast.Ident:
-		if sc != nil && sc.lookup(x.Name) != nil {
-			return nil
+		if sc != nil {
+			if v := sc.lookup(x.Name); v != nil {
+				return v.cv // a local constant or the counter of an unrolled loop; nil for a variable
+			}
 		}
 		if cd, ok := c.pkg.consts[x.Name]; ok {
 			return c.constDeclValue(c.pkg, cd, e)
@@ -1295,6 +1297,68 @@ func (c *fctx) fassign(x *ast.AssignStmt, sc *scope) (string, bool) {
 		}
 	}
 	return "", false
+}
+
+// `for i := c0; i < c1; i++ { body }` (also <=, i += 1) with constant bounds, at most 64 passes, a body that neither writes the counter nor leaves the
+// loop: the body once per value, the counter a constant of that pass
+func (c *fctx) unroll(x *ast.ForStmt, sc *scope, next func() string) string {
+	in, ok := x.Init.(*ast.AssignStmt)
+	if !ok || in.Tok != token.DEFINE || len(in.Lhs) != 1 || len(in.Rhs) != 1 {
+		c.fail(x, "for loop (only `for i := c0; i < c1; i++` with constant bounds is unrolled)")
+	}
+	id, ok := in.Lhs[0].(*ast.Ident)
+	lo := c.constEval(sc, in.Rhs[0])
+	cond, ok2 := x.Cond.(*ast.BinaryExpr)
+	if !ok || lo == nil || lo.float || !ok2 || (cond.Op != token.LSS && cond.Op != token.LEQ) {
+		c.fail(x, "for loop (only `for i := c0; i < c1; i++` with constant bounds is unrolled)")
+	}
+	if cid, ok := unparen(cond.X).(*ast.Ident); !ok || cid.Name != id.Name {
+		c.fail(x, "for loop whose condition does not compare its counter %s", id.Name)
+	}
+	hi := c.constEval(sc, cond.Y)
+	if hi == nil || hi.float {
+		c.fail(x, "for loop with a bound %s that is not an integer constant", exprString(cond.Y))
+	}
+	var stepped ast.Expr
+	switch post := x.Post.(type) {
+	case *ast.IncDecStmt:
+		if post.Tok == token.INC {
+			stepped = post.X
+		}
+	case *ast.AssignStmt:
+		if post.Tok == token.ADD_ASSIGN && len(post.Lhs) == 1 && len(post.Rhs) == 1 {
+			if lit, ok := unparen(post.Rhs[0]).(*ast.BasicLit); ok && lit.Value == "1" {
+				stepped = post.Lhs[0]
+			}
+		}
+	}
+	if pid, ok := stepped.(*ast.Ident); stepped == nil || !ok || pid.Name != id.Name {
+		c.fail(x, "for loop step (expected %s++)", id.Name)
+	}
+	if escapes(x.Body) {
+		c.fail(x, "the loop body leaves the loop (return, break, continue, goto)")
+	}
+	if writesOf(c, x.Body)[id.Name] {
+		c.fail(x, "the loop body writes the counter %s", id.Name)
+	}
+	a, _ := constant.Int64Val(constant.ToInt(lo.v))
+	b, _ := constant.Int64Val(constant.ToInt(hi.v))
+	if cond.Op == token.LEQ {
+		b++
+	}
+	if b-a > 64 {
+		c.fail(x, "for loop with %d passes (at most 64 are unrolled)", b-a)
+	}
+	var pass func(k int64) string
+	pass = func(k int64) string {
+		if k >= b {
+			return next()
+		}
+		isc := newScope(sc)
+		isc.vars[id.Name] = &varInfo{cv: &cval{v: constant.MakeInt64(k)}, coq: "?", t: typ{k: kUntyped}}
+		return c.block(x.Body.List, newScope(isc), func() string { return pass(k + 1) })
+	}
+	return pass(a)
 }
 
 // ---------------------------------------------------------------------------------------------------------------
